@@ -40,7 +40,7 @@ Lemma psb_S f b t :
   else if b <? 128 then match psb f t with Some (o, r') => Some (b :: o, r') | None => None end
   else
     let d := decode (b :: t) in
-    if invalid d then None
+    if invalid d then match psb f t with Some (o, r') => Some (239 :: 191 :: 189 :: o, r') | None => None end
     else match psb f (skipn (snd d) (b :: t)) with
          | Some (o, r') => Some (firstn (snd d) (b :: t) ++ o, r')
          | None => None
@@ -59,7 +59,8 @@ Proof.
   destruct (b <? 32); [discriminate|].
   destruct (b <? 128).
   { destruct (psb f t) as [[o r']|] eqn:E; [|discriminate]. rewrite (IH f' t _ E) by lia. exact H. }
-  cbv zeta in *. destruct (invalid (decode (b :: t))); [discriminate|].
+  cbv zeta in *. destruct (invalid (decode (b :: t))).
+  { destruct (psb f t) as [[o r']|] eqn:E; [|discriminate]. rewrite (IH f' t _ E) by lia. exact H. }
   destruct (psb f (skipn (snd (decode (b :: t))) (b :: t))) as [[o r']|] eqn:E; [|discriminate].
   rewrite (IH f' _ _ E) by lia. exact H.
 Qed.
@@ -80,8 +81,9 @@ Proof.
   - destruct t1 as [|b1 [|b2 t']]; try discriminate. cbn [app].
     destruct ((b1 =? 92) && (b2 =? 117)); [|discriminate].
     destruct (hex4 t') as [[c2 t'']|] eqn:E2; [|discriminate]. rewrite (hex4_ext _ _ _ K E2).
-    destruct (is_lo_surr c2); [|discriminate]. intros H; inversion H; subst; reflexivity.
-  - intros H; inversion H; subst; reflexivity.
+    destruct (is_lo_surr c2); [|discriminate].
+    generalize (65536 + (c1 - 55296) * 1024 + (c2 - 56320)). intros cp [= <- <-]; reflexivity.
+  - intros [= <- <-]; reflexivity.
 Qed.
 
 Lemma escape1_ext s bs r K : escape1 s = Some (bs, r) -> escape1 (s ++ K) = Some (bs, r ++ K).
@@ -116,6 +118,81 @@ Proof.
   - rewrite <- Hlen. rewrite firstn_length. lia.
 Qed.
 
+(** An INVALID decode is stable under appending, too, as soon as the scanner can still succeed on the
+    rest: then a byte below 0x80 (at the latest the closing quote) stands among the next three bytes
+    or the rest has three bytes anyway, and [decode] never looks further. *)
+Definition ascii_stop (t : list N) : Prop :=
+  match t with
+  | [] => False
+  | [b1] => b1 < 128
+  | [b1; b2] => b1 < 128 \/ b2 < 128
+  | _ => True
+  end.
+
+Lemma decode_app_stop b t K : ascii_stop t -> decode (b :: t ++ K) = decode (b :: t).
+Proof.
+  destruct t as [|b1 [|b2 [|b3 t']]]; cbn [ascii_stop app]; intros Hs; try contradiction; [| |reflexivity].
+  - unfold decode, cont.
+    destruct (b <? 128); [reflexivity|]. destruct (b <? 194); [reflexivity|].
+    replace (128 <=? b1) with false by lia. rewrite ?andb_false_l.
+    destruct (b <? 224); [reflexivity|].
+    destruct (b <? 240).
+    { destruct K as [|k1 K]; [reflexivity|].
+      replace ((if b =? 224 then 160 else 128) <=? b1) with false by (destruct (b =? 224); lia). reflexivity. }
+    destruct (b <? 245); [|reflexivity].
+    destruct K as [|k1 [|k2 K]]; try reflexivity.
+    replace ((if b =? 240 then 144 else 128) <=? b1) with false by (destruct (b =? 240); lia). reflexivity.
+  - unfold decode, cont.
+    destruct (b <? 128); [reflexivity|]. destruct (b <? 194); [reflexivity|].
+    destruct (b <? 224); [reflexivity|].
+    destruct (b <? 240); [reflexivity|].
+    destruct (b <? 245); [|reflexivity].
+    destruct K as [|k1 K]; [reflexivity|].
+    destruct Hs as [Hs|Hs].
+    + replace ((if b =? 240 then 144 else 128) <=? b1) with false by (destruct (b =? 240); lia). reflexivity.
+    + replace (128 <=? b2) with false by lia. rewrite ?andb_false_l, ?andb_false_r. reflexivity.
+Qed.
+
+Lemma psb_nil f : psb f [] = None.
+Proof. destruct f; reflexivity. Qed.
+
+Lemma decode_valid_size2 b t : 128 <= b -> invalid (decode (b :: t)) = false -> (2 <= snd (decode (b :: t)))%nat.
+Proof.
+  intros Hb. unfold decode, invalid, RE.
+  replace (b <? 128) with false by lia.
+  repeat match goal with
+         | |- context [if ?c then _ else _] => destruct c
+         | |- context [match ?l with [] => _ | _ :: _ => _ end] => destruct l
+         end; cbn [fst snd]; intros H; try lia; discriminate H.
+Qed.
+
+Lemma psb_some_stop : forall f t x, psb f t = Some x -> ascii_stop t.
+Proof.
+  assert (H1 : forall f b1 x, psb f [b1] = Some x -> b1 < 128).
+  { intros f b1 x H. destruct f as [|f]; [discriminate|]. rewrite psb_S in H.
+    destruct (b1 =? 34) eqn:E; [lia|].
+    destruct (b1 =? 92); [cbn in H; discriminate|].
+    destruct (b1 <? 32); [discriminate|].
+    destruct (b1 <? 128) eqn:E2; [lia|].
+    cbv zeta in H. destruct (invalid (decode [b1])) eqn:Ei.
+    - rewrite psb_nil in H. discriminate.
+    - pose proof (decode_valid_size2 b1 [] ltac:(lia) Ei) as Hk.
+      destruct (snd (decode [b1])) as [|[|k]]; try lia. cbn [skipn] in H. rewrite psb_nil in H. discriminate. }
+  intros f t x H. destruct t as [|b1 [|b2 [|b3 t']]]; cbn [ascii_stop]; auto.
+  - rewrite psb_nil in H. discriminate.
+  - eapply H1; eauto.
+  - destruct (b1 <? 128) eqn:E1; [left; lia|right].
+    destruct f as [|f]; [discriminate|]. rewrite psb_S in H.
+    replace (b1 =? 34) with false in H by lia. replace (b1 =? 92) with false in H by lia.
+    replace (b1 <? 32) with false in H by lia. rewrite E1 in H. cbv zeta in H.
+    destruct (invalid (decode [b1; b2])) eqn:Ei.
+    + destruct (psb f [b2]) as [y|] eqn:E; [|discriminate]. eapply H1; eauto.
+    + pose proof (decode_valid_size2 b1 [b2] ltac:(lia) Ei) as Hk.
+      destruct (snd (decode [b1; b2])) as [|[|k]]; try lia.
+      assert (Hn : skipn (S (S k)) [b1; b2] = []) by (destruct k; reflexivity).
+      rewrite Hn, psb_nil in H. discriminate.
+Qed.
+
 Lemma psb_ext : forall f s o r K, psb f s = Some (o, r) -> psb f (s ++ K) = Some (o, r ++ K).
 Proof.
   induction f as [|f IH]; intros s o r K H; [discriminate|].
@@ -130,7 +207,10 @@ Proof.
   destruct (b <? 128).
   { destruct (psb f t) as [[o1 r']|] eqn:E; [|discriminate]. rewrite (IH _ _ _ K E).
     inversion H; subst; reflexivity. }
-  cbv zeta in *. destruct (invalid (decode (b :: t))) eqn:Ei; [discriminate|].
+  cbv zeta in *. destruct (invalid (decode (b :: t))) eqn:Ei.
+  { destruct (psb f t) as [[o1 r']|] eqn:E; [|discriminate].
+    rewrite (decode_app_stop b t K (psb_some_stop _ _ _ E)), Ei. rewrite (IH _ _ _ K E).
+    inversion H; subst; reflexivity. }
   destruct (decode_ext b t K Ei) as [Hd Hl].
   change (b :: t ++ K) with ((b :: t) ++ K). rewrite Hd, Ei.
   set (k := snd (decode (b :: t))) in *.
